@@ -531,11 +531,11 @@ class CheckedCoverageInstrumentation(python3_11.CheckedCoverageInstrumentation):
                     )
                 )
             case "BINARY_SLICE":
-                # Instrumentation mostly after the original instruction
-                node.basic_block[override(instr_index)] = (
-                    self.instructions_generator.generate_overriding_instructions(
-                        InstrumentationSetupAction.COPY_THIRD_SHIFT_DOWN_THREE,
-                        instr,
+                # Instrumentation before the original instruction, as it pushes a result
+                # (the container is the third element below start and stop)
+                node.basic_block[before(instr_index)] = (
+                    self.instructions_generator.generate_instructions(
+                        InstrumentationSetupAction.COPY_THIRD,
                         method_call,
                         instr.lineno,
                     )
